@@ -1,4 +1,4 @@
-import AwsVerif.Proofs.C01.Trim
+import AwsVerif.Proofs.C01.Bridge
 /-!
 # C01 — byte buffers and cursors stay in bounds; failed operations change nothing
 
@@ -16,7 +16,7 @@ operation sequence.  Definitions used in the statements (in `Proofs/C01/Basic.le
 Helper lemmas live in `AwsVerif/Proofs/C01/*`.
 -/
 namespace AwsVerif.Props.C01
-open AwsVerif.ByteBuf AwsVerif.Proofs.C01
+open AwsVerif.ByteBuf AwsVerif.Proofs.C01 AwsVerif.Gen AwsVerif
 
 /-! ## c01_inv — validity is an invariant -/
 
@@ -76,7 +76,7 @@ theorem c01_no_oob_run (ops : List Op) (op : Op) (hpre : op.srcReadable) : step 
 
 /-! ## c01_fail_unchanged -/
 
-/-- [A] Every operation except `cat`: if the call reports failure (error code, `false`, zeroed output,
+/-- [A] Every operation except `cat` and `init_from_file` (`Op.isCat`): if the call reports failure (error code, `false`, zeroed output,
 NULL cursor returned) the complete state — heap, release log, all buffers, all cursors — is unchanged.
 No side condition: this includes the operations built on `aws_byte_cursor_advance_nospec` at every
 cursor length (since the guard `cursor->len < SIZE_MAX/2` of commit 574d3b6). -/
@@ -353,6 +353,78 @@ theorem c01_hex_table : ∀ i : Fin 256, hexToNum (UInt8.ofNat i.val) =
     else if 65 ≤ i.val ∧ i.val ≤ 70 then UInt8.ofNat (i.val - 55)
     else if 97 ≤ i.val ∧ i.val ≤ 102 then UInt8.ofNat (i.val - 87) else 255 := by
   decide
+
+/-! ## c01_gen_* — the model's leaf functions are the functions re-translated from the C source on every run
+
+`AwsVerif.Gen.ByteBufFns` (gen/bytebuf_fns.py through gen/cfun.py, from source/byte_buf.c) and `AwsVerif.Gen.Math`
+(gen/math_gen.py, from math.inl / math.gcc_overflow.inl) are regenerated by `regen(ctx)`; an edit to one of
+these C functions changes the right-hand side of the theorem that names it. -/
+
+/-- `aws_nospec_mask` -/
+theorem c01_gen_nospec_mask (i b : Nat) : nospecMask i b = ByteBufFns.aws_nospec_mask i b := nospecMask_gen i b
+
+/-- `aws_isspace`, `aws_isalnum`, `aws_isalpha`, `aws_isdigit`, `aws_isxdigit` on all 256 bytes -/
+theorem c01_gen_predicates (i : Fin 256) :
+    Pred.eval .isspace (UInt8.ofNat i.val) = ByteBufFns.aws_isspace i.val ∧
+    Pred.eval .isalnum (UInt8.ofNat i.val) = ByteBufFns.aws_isalnum i.val ∧
+    Pred.eval .isalpha (UInt8.ofNat i.val) = ByteBufFns.aws_isalpha i.val ∧
+    Pred.eval .isdigit (UInt8.ofNat i.val) = ByteBufFns.aws_isdigit i.val ∧
+    Pred.eval .isxdigit (UInt8.ofNat i.val) = ByteBufFns.aws_isxdigit i.val :=
+  ⟨isspace_gen i, isalnum_gen i, isalpha_gen i, isdigit_gen i, isxdigit_gen i⟩
+
+/-- the guard expressions, cut out of the C functions as written, are the guards of the model functions
+(`curAdvance`, `curAdvanceNospec`, `bufWrite`, `bufWriteU8N`, `bufAppend`, `bufAdvance`) -/
+theorem c01_gen_guards (a b n : Nat) :
+    ByteBufFns.verif_guard_cursor_advance a n = decide (a > HALF ∨ n > HALF ∨ n > a) ∧
+    ByteBufFns.verif_guard_cursor_advance_nospec a n = decide (n ≤ a ∧ n ≤ HALF ∧ a < HALF) ∧
+    (a < W → n < W → ByteBufFns.verif_guard_buf_write a b n = decide (a > HALF ∨ n > HALF ∨ a + n > b)) ∧
+    (a < W → n < W → ByteBufFns.verif_guard_buf_write_u8_n a b n = decide (a > HALF ∨ n > HALF ∨ a + n > b)) ∧
+    ByteBufFns.verif_guard_buf_append a b n = decide (subW a b < n) ∧
+    ByteBufFns.verif_guard_buf_advance a b n = decide (subW a b ≥ n) :=
+  ⟨guard_advance_gen a n, guard_advance_nospec_gen a n, guard_write_gen a b n, guard_write_u8_n_gen a b n,
+   guard_append_gen a b n, guard_buf_advance_gen a b n⟩
+
+/-- `aws_add_size_checked`, `aws_add_size_saturating`, `aws_mul_u64_checked`, `aws_add_u64_checked` (`none` ↦
+`AWS_ERROR_OVERFLOW_DETECTED` = 5) -/
+theorem c01_gen_checked_arith (a b : Nat) :
+    Math.MathInl.aws_add_size_checked a b = resOfOption (addChecked a b) ∧
+    Math.MathInl.aws_add_size_saturating a b = addSat a b ∧
+    Math.Overflow.aws_mul_u64_checked a b = resOfOption (mulChecked a b) ∧
+    Math.Overflow.aws_add_u64_checked a b = resOfOption (addChecked a b) :=
+  ⟨addChecked_gen a b, addSat_gen a b, mulChecked_gen a b, addU64Checked_gen a b⟩
+
+/-! ## c01_init_from_file (source/file.c) -/
+
+/-- `aws_byte_buf_init_from_file[_with_size_hint]` for every file behaviour (open failure, any `st_size`, any data,
+any schedule of short reads / read errors): the state stays well-formed (`len ≤ cap` …), only slot `b` changes,
+on failure slot `b` is the zeroed buffer (cleaned up), on success the contents are followed inside the capacity
+by a NUL terminator that `len` does not count; what the call gave back through its `clean_up_secure` was zeroed
+(`c01_secure_zero` covers this operation too). -/
+theorem c01_init_from_file {s s' : State} {b : Nat} {f : FileSim} {useHint : Bool} {sizeHint : Nat} {r : Res} (hw : WF s)
+    (e : step s (.initFromFile b f useHint sizeHint) = .ok (r, s')) :
+    WF s' ∧ s'.curs = s.curs ∧ (∀ i, i ≠ b → s'.bufs i = s.bufs i) ∧
+    (r.failed = true → s'.bufs b = Buf.zero) ∧
+    (r.failed = false → (s'.bufs b).len < (s'.bufs b).cap ∧
+      (regionCells s'.mem.heap (s'.bufs b).rid)[(s'.bufs b).len]? = some (some 0)) := by
+  refine ⟨step_wf hw e, ?_⟩
+  simp only [step] at e
+  split at e
+  · cases e
+  · rename_i hmax
+    obtain ⟨⟨e1, m1, nb⟩, hcore, e⟩ := bind_ok e
+    cases e
+    refine ⟨rfl, fun i hi => by simp [State.setBuf, hi], ?_, ?_⟩
+    · intro hf
+      have := (bufInitFromFile_spec (hw.bufOk b) (by omega) hcore).2.2 hf
+      simp [State.setBuf, this]
+    · intro hf
+      have he : e1 = none := by
+        cases e1 with
+        | none => rfl
+        | some _ => simp [Res.failed] at hf
+      subst he
+      have := bufInitFromFile_nul (by omega) hcore
+      simpa [State.setBuf] using this
 
 /-! ## non-vacuity: the hypotheses are met by concrete runs (exact fit, one short, self-append) -/
 
